@@ -41,7 +41,7 @@ def worker(task):
     alltypes = [t for t in rustwl.types_of(m.file) if m.dm[t]["kind"] != "custom_field_declaration"]
     have = {}
     # rust
-    rust_ok = _RC is not None and any(x["name"] == d["name"] for x in _RC.live)
+    rust_ok = "rust" in sup and _RC is not None and any(x["name"] == d["name"] for x in _RC.live)
     if rust_ok:
         have["rust"] = set(alltypes)
     # python
@@ -124,15 +124,16 @@ def worker(task):
                         ser["python"][(tid, i)] = r["ok"]
                 got = {b: ser[b][(tid, i)] for b in ser if (tid, i) in ser[b]}
                 res["evals"] += len(got)
-                if len(got) >= 2:
+                if len(got) >= 2 and cxxwl.empty_elementsize_array(m, tid, v):
+                    res["abstain_empty_elementsize"] = res.get("abstain_empty_elementsize", 0) + 1
+                elif len(got) >= 2:
                     res["ser_compared"] += 1
                     res["nontrivial"].add(common.h(d["name"], tid, "v", i))
                     names = sorted(got)
                     for a in range(len(names)):
                         for b in range(a + 1, len(names)):
                             res["pairs"]["%s-%s" % (names[a], names[b])] = res["pairs"].get("%s-%s" % (names[a], names[b]), 0) + 1
-                    for who, others in disagreements({b: got[b] for b in names}, lambda p, q: p == q):
-                        V("serialize-differs:%s" % (reattribute(m, tid, who, others, "ser") or attribute(who, ctx(m, tid, who, "ser"))),
+                    judge(m, tid, {b: got[b] for b in names}, lambda p, q: p == q, "ser", "serialize-differs", V,
                           dict({"type": tid, "value": v}, **got))
                     if len(res["samples"]) < 1:
                         res["samples"].append({"desc": d["name"], "type": tid, "value": v, "bytes_by_backend": got})
@@ -184,13 +185,13 @@ def worker(task):
                 if len(live) < 2:
                     continue
                 acc = {x: o[0] for x, o in live.items()}
-                dis = disagreements(acc, lambda p, q: p == q)
-                for who, others in dis:
-                    V("acceptance-differs:%s" % (reattribute(m, tid, who, others, "parse") or attribute(who, ctx(m, tid, who, "parse"))),
-                      dict({"type": tid, "hex": b.hex(), "input_class": tag}, **acc))
+                def acc_hint(b=b):
+                    e = rustwl.expectation(m, tid, b) if not is_struct else cxxwl.struct_expectation(m, tid, b)
+                    return {"ok": "ok", "fault": "rej"}.get(e[0])
+                dis = judge(m, tid, acc, lambda p, q: p == q, "parse", "acceptance-differs", V,
+                            dict({"type": tid, "hex": b.hex(), "input_class": tag}, **acc), hint=acc_hint)
                 if not dis and all(o[0] == "ok" for o in live.values()):
-                    for who, others in disagreements({x: o[1] for x, o in live.items()}, same_values):
-                        V("values-differ:%s" % (reattribute(m, tid, who, others, "parse") or attribute(who, ctx(m, tid, who, "parse"))),
+                    judge(m, tid, {x: o[1] for x, o in live.items()}, same_values, "parse", "values-differ", V,
                           dict({"type": tid, "hex": b.hex(), "input_class": tag}, **{x: o[1] for x, o in live.items()}))
         if rcl:
             rcl.close()
@@ -203,6 +204,47 @@ def worker(task):
                     pass
     res["backends"] = {b: len(t) for b, t in have.items()}
     return _fin(res)
+
+
+def judge(m, tid, vals, eq, op, kind, V, case, hint=None):
+    """vals: backend -> outcome for one (type, value) or (type, bytes). Backends that have a recorded root
+    cause on this type (known defects of the C++ / Java / Python generators, named by ctx()) are tainted:
+    if the untainted backends agree among themselves and only tainted ones differ from them, the event is
+    keyed on each dissenting backend's root cause - one key per cause, whatever the kind of difference and
+    whoever else dissents. Any disagreement among untainted backends, or a dissenter without a recorded
+    cause, keeps the precise key (kind, who, constructs)."""
+    dis = disagreements(vals, eq)
+    if not dis:
+        return False
+    names = sorted(vals)
+    taint = {}
+    for b in names:
+        c = ctx(m, tid, b, op)
+        if c.split(":")[0] == b:
+            taint[b] = c
+    clean = [b for b in names if b not in taint]
+    ref = None
+    if clean and not disagreements({b: vals[b] for b in clean}, eq):
+        ref = vals[clean[0]]
+    elif not clean:
+        # everybody has a recorded cause here: the reference model's outcome (if it has one) only decides
+        # whom the event is attributed to - it never creates one
+        h = hint() if hint else None
+        if h is not None:
+            ref = h
+        else:
+            for b in names:
+                V("%s-deviates|%s" % (b, taint[b]), dict(case, difference=kind))
+            return True
+    if ref is not None:
+        dissent = [b for b in names if b in taint and not eq(ref, vals[b])]
+        if dissent:
+            for b in dissent:
+                V("%s-deviates|%s" % (b, taint[b]), dict(case, difference=kind))
+            return True
+    for who, others in dis:
+        V("%s:%s" % (kind, reattribute(m, tid, who, others, op) or attribute(who, ctx(m, tid, who, op))), case)
+    return True
 
 
 def same_values(a, b):
@@ -288,6 +330,8 @@ def ctx(m, tid, who, op):
                 return "cxx:child-view-ignores-constraints"
             if any(c.endswith(":padded") for c in cons):
                 return "cxx:padded-array"
+    if "python" in who and rustwl.struct_tree_field(m, tid):
+        return "python:derived-struct-as-field-type"
     if "python" in who and op == "parse":
         if any(":modifier" in c for c in rustwl.type_constructs(m, tid)):
             return "python:size-modifier-underflow"
@@ -305,11 +349,12 @@ def run(tier):
     n = 6 if tier == "thorough" else 1
     nv = 24 if tier == "thorough" else 8
     nb = 200 if tier == "thorough" else 60
-    profiles = ["bitfield", "array", "payload", "inherit", "enum", "groups", "small", "structs", "mix"]
+    profiles = ["bitfield", "array", "payload", "inherit", "enum", "groups", "small", "structs", "mix", "matrix"]
     ds = corpus.descriptions(check.seed, n, profiles, shuffle=False)
     from ..engines.rs import RustCorpus
     import copy
-    rc = RustCorpus("c07-s%d-%s" % (check.seed, tier), copy.deepcopy(ds))
+    rc = RustCorpus("c07-s%d-%s" % (check.seed, tier),
+                    copy.deepcopy([d for d in ds if "rust" in gen.supported_by(d["features"])]))
     rc.generate()
     rc.build("dev")
     _RC = rc
